@@ -179,6 +179,36 @@ def gen_soup(rng, n, images=True):
     return bytes(out), inq
 
 
+# trailing content whose TEXT contains "EI" followed by white space or a delimiter, inside strings, names, comments:
+# valid content that is not an end-of-image marker (token count of each piece in the second component)
+LOOKALIKES = [(b"(BEI) Tj", 2), (b"(DREI) Tj", 2), (b"(EI) Tj", 2), (b"(a EI b) Tj", 2), (b"(x\nEI\n) '", 2), (b"/EI gs", 2), (b"/xEI gs", 2),
+              (b"/EI/EI MP", 3), (b"% see EI here\n", 0), (b"%EI\r", 0), (b"[(xEI) 1 (EI ) -2] TJ", 7), (b"<</EI(EI)>> /P DP", 7), (b"(EI\\) EI ) Tj", 2)]
+FILLERS = [b"0", b"1.5", b"q", b"Q", b"/N", b"n", b"(s)", b"W*"]
+II_HEAD = b"BI /W 1 /H 1 /BPC 8 /CS /G ID "
+
+
+def gen_lookalike_streams(rng, dense):
+    """inline images followed by 0..14 tokens (across findEI's look-ahead bound of 10) among which such look-alikes occur:
+    (a) the image is the last one of its stream, (b) another image follows the tail.  dense: every count x position"""
+    out = []
+    for la, nt in LOOKALIKES:
+        for total in range(nt, 15):
+            nfill = total - nt
+            positions = sorted(set([0, nfill // 2, nfill])) if dense else [rng.choice([0, nfill // 2, nfill])]
+            for pos in positions:
+                fill = [rng.choice(FILLERS) for _ in range(nfill)]
+                toks = fill[:pos] + [la] + fill[pos:]
+                tail = b" ".join(toks)
+                sep = rng.choice([b" ", b"\n", b"\r"])
+                out.append(b"q " + II_HEAD + b"\x80\x81 EI" + sep + tail + rng.choice([b"", b"\n", b" "]))
+                if dense or rng.random() < 0.5:
+                    out.append(b"q " + II_HEAD + b"\x80\x81 EI" + sep + tail + b" " + II_HEAD + b"\x82 EI Q" + rng.choice([b"", b" Q\n"]))
+    # no look-alike at all: 0..12 plain tokens after the last image
+    for total in range(0, 13):
+        out.append(b"q " + II_HEAD + b"\x80 EI " + b" ".join(rng.choice(FILLERS) for _ in range(total)))
+    return out
+
+
 DAMAGE = {
     "unterminated-string": [b"(abc", b"q (a\\", b"(a(b)", b"1 0 0 RG (x\\)"],
     "bad-hex": [b"<4g> Tj", b"<41", b"<", b"(ok) <zz>"],
@@ -268,6 +298,9 @@ def gen_streams(chk):
             add("image", b"BI/W 1/H 1/IM true ID" + ws1 + b"\x80" + ws2 + b"EI" + ws1 + b"(a\rb) Tj")
     for d in [b"(", b")", b"<", b">", b"[", b"]", b"{", b"}", b"/", b"%"]:
         add("image", b"BI /W 1 /H 1 /BPC 8 /CS /G ID \x80 EI" + d + (b"x)" if d == b"(" else b"41>" if d == b"<" else b"x\n" if d == b"%" else b""))
+    # EI look-alikes in the content that FOLLOWS an image (findEI's look-ahead, resume position and last-candidate fallback)
+    for c in gen_lookalike_streams(rng, dense=True):
+        add("image-tail", c)
     # qpdf accepts an EI that is not preceded by white space / is followed by VT: outside the quantifier
     add("outside:ei-not-preceded", b"BI /W 1 ID abEI (\r) cd EI Q 1 2 3 4 5 6 7 8 9 10 11 12\n", False)
     add("outside:ei-followed-by-ws", b"BI /W 1 ID ab EI (\r) cd EI Q 1 2 3 4 5 6 7 8 9 10 11 12\n", False)
